@@ -230,6 +230,7 @@ def _build_ref(c1, r1, c2, r2, anchor=''):
 
 
 _re_build_id = regex.compile(r'^[0-9]+$')
+_re_plain_sheet = regex.compile(r'^[^\W\d][\w\.]*$')  # Readable without quotes.
 
 
 def _build_sheet_id(sheet='', directory='', filename='', **kw):
@@ -242,8 +243,8 @@ def _build_sheet_id(sheet='', directory='', filename='', **kw):
             if directory and not directory.endswith('/'):
                 directory += '/'
             sheet = "'%s[%s]%s'" % (directory, filename, quoted)
-    elif ' ' in sheet or "'" in sheet:
-        sheet = "'%s'" % quoted
+    elif sheet and not _re_plain_sheet.match(sheet):
+        sheet = "'%s'" % quoted  # E.g., `A B`, `IT'S`, `A-B`, `2020`.
     return sheet
 
 
